@@ -26,9 +26,9 @@ MAINT = "    ()\n}\n"
 def programs(tier):
     out = []
 
-    def add(group, name, text, lines, expect="accept"):
+    def add(group, name, text, lines, expect="accept", extra=None):
         out.append({"prog": TextProgram(("found_" + group + "_" + name).replace("-", "_").replace(":", "_"), text, lines), "family": "found:" + group,
-                    "ident": f"found:{group}:{name}", "expect": expect})
+                    "ident": f"found:{group}:{name}", "expect": expect, **({"extra_files": extra} if extra else {})})
 
     # ---- generic instances inside containers and non-generic definitions
     opt = "enum Opt[T] { Non, Som(T) }\nstruct Bx[T] { v: T }\n"
@@ -106,4 +106,21 @@ def programs(tier):
             ret = ty if un == "returned" else "unit"
             body = use if un in ("returned", "unused") else f"let _ = {use}; ()"
             add("type-parameter-applied", f"{un}:{tn}", f"fn g[U](u: U) -> unit {{ () }}\nfn f[T](x: {ty}) -> {ret} {{ {body} }}\n" + MAINH + MAINT, [], expect="reject")
+    # ---- a bare constructor pattern whose enum is declared in ANOTHER FILE of the same package (lowering knows the constructors of
+    # one file only and made the pattern a variable that matches everything: the first such arm silently swallowed the others)
+    opt2 = "enum Opt { Non, Som(int32) }\nenum Col { Red, Green, Blue }\n"
+    shows = ("fn f(o: Opt) -> int32 { match o { Non => 1, Som(v) => v } }\n"
+             "fn name(c: Col) -> string { match c { Red => \"r\", Green => \"g\", Blue => \"b\" } }\n"
+             "fn both(o: Opt, c: Col) -> string { match (o, c) { (Non, Green) => \"ng\", (Som(x), Blue) => \"sb\" + int32_to_string(x), (Non, _) => \"n\", (_, Red) => \"r\", _ => \"other\" } }\n"
+             "fn second(o: Opt) -> int32 { match o { Som(v) => v + 10, Non => 7 } }\n")
+    body = ("    let _ = string_println(int32_to_string(f(Som(5))) + int32_to_string(f(Non)) + name(Red) + name(Green) + name(Blue));\n"
+            "    let _ = string_println(both(Non, Green) + both(Som(2), Blue) + both(Non, Blue) + both(Som(1), Red) + both(Som(1), Green));\n"
+            "    let _ = string_println(int32_to_string(second(Som(1))) + int32_to_string(second(Non)));\n")
+    want = ["51rgb", "ngsb2nrother", "117"]
+    add("constructor-pattern-across-files", "enum-in-sibling-file", shows + MAINH + body + MAINT, want, extra={"types.gom": opt2})
+    add("constructor-pattern-across-files", "matches-in-sibling-file", opt2 + MAINH + body + MAINT, want, extra={"helpers.gom": shows})
+    add("constructor-pattern-across-files", "enum-sorts-after-main", shows + MAINH + body + MAINT, want, extra={"zz_types.gom": opt2})
+    add("constructor-pattern-across-files", "one-file-control", opt2 + shows + MAINH + body + MAINT, want)
+    add("constructor-pattern-across-files", "let-and-closure-parameter-named-like-nothing", "fn g(o: Opt) -> int32 { let k = |Nonx: int32| Nonx + 1; match o { Non => k(1), Som(Nonx) => k(Nonx) } }\n" + MAINH +
+        "    let _ = string_println(int32_to_string(g(Non)) + int32_to_string(g(Som(4))));\n" + MAINT, ["25"], extra={"types.gom": opt2})
     return out
